@@ -903,7 +903,12 @@ def transform(node, *callbacks):
                     isinstance(prev, ParsedObject)
                     and isinstance(node, ParsedObject)
                     and not node._metadata
+                    and prev._metadata
                 ):
+                    # The replacement may be an object of the input tree (one
+                    # of the node's own children, say): the position goes to
+                    # a copy of it.
+                    node = node._replace()
                     node._metadata.update(prev._metadata)
 
         return node
